@@ -270,7 +270,8 @@ def run_C04(tier, seed):
     big = stages.api_stage("C04", "batch", tier, seed, groups=("rist",), scale="2:256", scale_min=0, limit=40 if q else 400,
                            filter_fn=lambda s: ctxs(s) or (s["sc"]["skew"] == [0, 0, 0] and (dis(s) or cache_only(s))),
                            # (always: two-member batches with a disagreeing member - expanded, a batch of exactly one full chunk)
-                           must_fn=lambda s: len(s["sc"]["members"]) == 2 and dis(s))
+                           # (and always: honest batches of three and more members made in different contexts - more than one chunk)
+                           must_fn=lambda s: (len(s["sc"]["members"]) == 2 and dis(s)) or (ctxs(s) and s["expect"]["verify"] == "ok" and len(s["sc"]["members"]) >= 3))
     big.name = "api:batch@256"
     res.append(big)
     return res
